@@ -497,7 +497,8 @@ Section Repaired.
 End Repaired.
 
 (* ------------------------------------------------------------------ *)
-(* the repaired code never panics, whatever the arguments               *)
+(* the repaired code never panics, whatever the arguments — except      *)
+(* SETVAR on a query without a variable map (nil-map write)            *)
 (* ------------------------------------------------------------------ *)
 
 Section NoPanic.
@@ -595,9 +596,10 @@ Section NoPanic.
     rewrite index_at_ok by lia. discriminate.
   Qed.
 
-  Lemma builtin_np : forall b args, call_builtin Repaired O C b args <> Panic.
+  Lemma builtin_np : forall b args,
+    (b <> BSetVar \/ vars C <> None) -> call_builtin Repaired O C b args <> Panic.
   Proof.
-    intros b args. destruct b; cbn [call_builtin].
+    intros b args Hside. destruct b; cbn [call_builtin].
     - apply aggr_np.
     - apply aggr_np.
     - apply aggr_np.
@@ -634,8 +636,10 @@ Section NoPanic.
       destruct args as [|a0 [|a1 rest]]; cbn [guard List.length Nat.ltb Nat.leb bind arg nth_error]; try discriminate.
       np.
     - (* setvar *) unfold setvar_func.
-      destruct args as [|a0 [|a1 [|a2 rest]]]; cbn [guard List.length Nat.ltb Nat.leb bind arg nth_error repaired]; try discriminate.
-      np.
+      destruct args as [|a0 [|a1 [|a2 rest]]]; cbn [guard List.length Nat.ltb Nat.leb bind arg nth_error]; try discriminate.
+      apply bind_np; [apply sprint_np | intros ? ?].
+      destruct (vars C) eqn:Ev; [discriminate|].
+      destruct Hside as [Hs1|Hs2]; congruence.
     - (* raise_when *) unfold raise_when_func.
       destruct args as [|a0 [|a1 [|a2 rest]]]; cbn [guard List.length Nat.ltb Nat.leb bind arg nth_error]; try discriminate.
       np.
@@ -669,9 +673,23 @@ Section NoPanic.
       np.
   Qed.
 
-  Lemma call_np : forall name args, call Repaired O C name args <> Panic.
+  Lemma call_np : forall name args, vars C <> None -> call Repaired O C name args <> Panic.
   Proof.
-    intros name args. unfold call. destruct (lookup_builtin (ascii_lower name)); [apply builtin_np | discriminate].
+    intros name args Hv. unfold call.
+    destruct (lookup_builtin (ascii_lower name)); [apply builtin_np; right; exact Hv | discriminate].
+  Qed.
+
+  (* the one panic left: SETVAR's write into the nil variable map *)
+  Lemma call_panic_only_setvar : forall name args,
+    call Repaired O C name args = Panic ->
+    lookup_builtin (ascii_lower name) = Some BSetVar /\ vars C = None.
+  Proof.
+    intros name args H. unfold call in H.
+    destruct (lookup_builtin (ascii_lower name)) as [b|] eqn:El; [|discriminate].
+    destruct (vars C) eqn:Ev.
+    - exfalso. revert H. apply builtin_np. right. rewrite Ev. discriminate.
+    - destruct b; try (exfalso; revert H; apply builtin_np; left; discriminate).
+      split; reflexivity.
   Qed.
 End NoPanic.
 
@@ -745,14 +763,18 @@ Section Eval.
   Qed.
 End Eval.
 
-Lemma eval_np : forall O C e, eval Repaired O C e <> Panic.
+Lemma eval_np : forall O C e, vars C <> None -> eval Repaired O C e <> Panic.
 Proof.
-  intros O C e. induction e as [v|name args IH] using fexpr_ind'; [discriminate|].
+  intros O C e Hv. induction e as [v|name args IH] using fexpr_ind'; [discriminate|].
   rewrite eval_call. apply bind_np.
   - induction IH as [|a r Ha _ IHr]; cbn [eval_args]; [discriminate|].
     apply bind_np; [exact Ha | intros]. apply bind_np; [exact IHr | discriminate].
-  - intros. apply bind_np; [apply call_np | discriminate].
+  - intros. apply bind_np; [apply call_np; exact Hv | discriminate].
 Qed.
+
+(* exec's recover frame: at the API level a panic is an error *)
+Lemma api_eval_np : forall V O C e, catch_panic (eval V O C e) <> Panic.
+Proof. intros V O C e. destruct (eval V O C e); discriminate. Qed.
 
 (* DECODE(ENCODE(v, b), b) = v as one expression, function names in any letter case *)
 Lemma eval_decode_encode : forall V O C v b bl nd ne,
@@ -808,68 +830,10 @@ Lemma pinned_refuted : forall O C,
   call Pinned O C "elementat" [VArr [VNum 1%float]; VNum (-1)%float] = Panic /\
   call Pinned O C "if" [VNull; VNum 1%float; VNum 2%float] = Panic /\
   call Pinned O C "to_upper" [VNull] = Panic /\
-  call Pinned O C "sum" [VNull] = Panic /\
-  call Pinned O {| consts := None; vars := None |} "setvar" [VStr "a"; VNum 1%float] = Panic.
+  call Pinned O C "sum" [VNull] = Panic.
 Proof. intros O C. vm_compute. repeat split. Qed.
 
-(* ------------------------------------------------------------------ *)
-(* complements used by Properties/C18.v                                 *)
-(* ------------------------------------------------------------------ *)
-
-Lemma base_of_none : forall bl, ~ In bl ["base64"; "base32"; "hex"] -> base_of bl = None.
-Proof.
-  intros bl H. unfold base_of.
-  assert (Hne : forall k, In k ["base64"; "base32"; "hex"] -> String.eqb bl k = false).
-  { intros k Hk. apply String.eqb_neq. intro E. subst k. auto. }
-  rewrite !Hne by (simpl; tauto). reflexivity.
-Qed.
-
-(* HASH(v, alg) is hex(H_alg(gob(v))) whatever the variant and the query context *)
-Lemma hash_value : forall V O C v a al alg buf,
-  gob_ser O v = OOk buf -> str_lower O a = OOk al -> hash_alg_of al = Some alg ->
-  call_builtin V O C BHash [v; VStr a] = Ok (VStr (hex_enc (hash_sum O alg buf))).
-Proof.
-  intros V O C v a al alg buf Hs Ha Halg. simpl. unfold hash_func.
-  rewrite guard_ok by reflexivity. simpl. rewrite Hs. simpl. rewrite Ha. simpl. rewrite Halg. reflexivity.
-Qed.
-
-Lemma hash_pure_len : forall O v a al alg,
-  codec_laws O -> hash_len_law O -> scalar v -> str_lower O a = OOk al -> hash_alg_of al = Some alg ->
-  exists h, String.length h = 2 * digest_len alg /\
-            forall V C, call_builtin V O C BHash [v; VStr a] = Ok (VStr h).
-Proof.
-  intros O v a al alg [G _] L Hv Ha Halg. destruct (G v Hv) as [buf [Hs _]].
-  exists (hex_enc (hash_sum O alg buf)). split.
-  - rewrite hex_enc_length, L. reflexivity.
-  - intros V C. apply hash_value with al; assumption.
-Qed.
-
-(* the symbolic base64/base32 codecs of the executable instance (Model/FuncsInst.v) satisfy
-   their part of [codec_laws] — the premise is not vacuous *)
-Lemma prefix_app : forall p s, String.prefix p (p ++ s) = true.
-Proof.
-  induction p as [|c p IH]; intros s; simpl; [destruct s; reflexivity|].
-  destruct (ascii_dec c c); [apply IH | congruence].
-Qed.
-
-Lemma substring_all : forall s, String.substring 0 (String.length s) s = s.
-Proof. induction s as [|c s IH]; simpl; [reflexivity | rewrite IH; reflexivity]. Qed.
-
-Lemma substring_skip : forall p s n, String.substring (String.length p) n (p ++ s) = String.substring 0 n s.
-Proof. induction p as [|c p IH]; intros s n; simpl; [reflexivity | apply IH]. Qed.
-
-Lemma app_length_str : forall p s, String.length (p ++ s) = String.length p + String.length s.
-Proof. induction p as [|c p IH]; intros s; simpl; [reflexivity | rewrite IH; reflexivity]. Qed.
-
-Lemma strip_prefix_app : forall p s, FuncsInst.strip_prefix p (p ++ s) = Some s.
-Proof.
-  intros p s. unfold FuncsInst.strip_prefix. rewrite prefix_app, substring_skip, app_length_str.
-  replace (String.length p + String.length s - String.length p) with (String.length s) by lia.
-  rewrite substring_all. reflexivity.
-Qed.
-
-Lemma sym_codec_roundtrip : forall m b, FuncsInst.sym_dec m (FuncsInst.sym_enc m b) = OOk b.
-Proof.
-  intros m b. unfold FuncsInst.sym_dec, FuncsInst.sym_enc.
-  rewrite strip_prefix_app, hex_dec_enc. reflexivity.
-Qed.
+(* on both trees: SETVAR on a query built without WithVars writes into a nil map *)
+Lemma setvar_nil_map_panics : forall V O cs,
+  call V O {| consts := cs; vars := None |} "setvar" [VStr "a"; VNum 1%float] = Panic.
+Proof. intros V O cs. destruct V; reflexivity. Qed.
